@@ -86,11 +86,11 @@ def run(rep, pid, tpl, seed, prop, mode, thorough):
                 cases.append((plen, wiring, history))
     with cf.ThreadPoolExecutor(max_workers=8) as ex:
         evs = list(ex.map(lambda ic: one(pid, tpl, seed, keys, prop, mode, ic[1][0], ic[1][1], ic[1][2], ic[0]), list(enumerate(cases))))
-    wd = workdir(pid, "run-clirt", clean=True)
+    wd = workdir(pid, "run-clirt-" + mode, clean=True)
     tp = os.path.join(wd, "trace.ndjson")
     write_jsonl(tp, evs)
-    v = validate_trace(pid, "clirt", "Trace_Cli", tp, len(evs))
-    rep.add_trace_run("cli-roundtrips", v, len(evs), len(evs))
+    v = validate_trace(pid, "clirt-" + mode, "Trace_Cli", tp, len(evs))
+    rep.add_trace_run("cli-roundtrips-" + mode, v, len(evs), len(evs))
     for (ln, pred) in v["viols"]:
         if pred.startswith("TOOL_"):
             raise ToolError("trace tooling mismatch %s: %s" % (pred, json.dumps(evs[ln - 1])[:500]))
